@@ -385,26 +385,31 @@ class Run:
         if not lc:
             raise ToolError("no conformance run to corrupt")
 
-        def corrupt(v):
-            # depth-first: the first boolean or integer leaf
-            if isinstance(v, bool):
-                return (not v), True
-            if isinstance(v, int):
-                return v + 1, True
-            if isinstance(v, list):
+        def leaves(v, path=()):
+            """paths of the boolean / integer leaves of a result (measurements excluded)"""
+            if isinstance(v, bool) or isinstance(v, int):
+                yield path
+            elif isinstance(v, list):
                 for i, x in enumerate(v):
-                    y, ok = corrupt(x)
-                    if ok:
-                        return v[:i] + [y] + v[i + 1:], True
-            if isinstance(v, dict):
+                    yield from leaves(x, path + (i,))
+            elif isinstance(v, dict):
                 for k in v:
-                    if k in ("ms", "peak", "residual"):      # measurements, not results
-                        continue
-                    y, ok = corrupt(v[k])
-                    if ok:
-                        return dict(v, **{k: y}), True
-                if isinstance(v.get("outcome"), str):        # nothing else to damage: the outcome itself
-                    return dict(v, outcome="crash"), True
+                    if k not in ("ms", "peak", "residual"):
+                        yield from leaves(v[k], path + (k,))
+
+        def damaged(v, path):
+            if not path:
+                return (not v) if isinstance(v, bool) else v + 1
+            if isinstance(v, list):
+                return v[:path[0]] + [damaged(v[path[0]], path[1:])] + v[path[0] + 1:]
+            return dict(v, **{path[0]: damaged(v[path[0]], path[1:])})
+
+        def corrupt(v, salt):
+            ps = list(leaves(v))
+            if ps:
+                return damaged(v, ps[(salt * 7919) % len(ps)]), True
+            if isinstance(v, dict) and isinstance(v.get("outcome"), str):        # nothing else to damage: the outcome itself
+                return dict(v, outcome="crash"), True
             return v, False
         corrupted, reported = 0, 0
         for ep in lc["events"][:3]:
@@ -413,7 +418,7 @@ class Run:
             touched = set()
             for i in range(0, len(lines), step):
                 if "res" in lines[i]:
-                    new, ok = corrupt(lines[i]["res"])
+                    new, ok = corrupt(lines[i]["res"], i)
                     if ok:
                         lines[i]["res"] = new
                         touched.add(i + 1)
